@@ -294,6 +294,12 @@ def _post_probes(req, trace):
             if not p['diff_st_empty']:
                 p['diff_st'] = str(d1)
             p['version_id'] = v.pk
+            per_app = {}
+            for app_sig in target.app_sigs:
+                other = stored.get_app_sig(app_sig.app_id)
+                per_app[app_sig.app_id] = bool(other is not None and
+                                               other == app_sig)
+            p['apps_eq'] = per_app
             field = Version._meta.get_field('signature')
             with connections[db].cursor() as cur:
                 cur.execute('SELECT signature FROM django_project_version '
